@@ -9,7 +9,7 @@ SNAP=$(mktemp -d /tmp/verif-snap-XXXXXX); rmdir "$SNAP"
 git worktree add -q "$SNAP" HEAD || exit 2
 trap 'git -C /verif worktree remove --force "$SNAP"' EXIT
 export SNAP
-dirs=("$@"); [ ${#dirs[@]} -eq 0 ] && dirs=(seeded/C*-*)
+dirs=("$@"); [ ${#dirs[@]} -eq 0 ] && dirs=(seeded/C*-* seeded/W*-*-*)
 one() {
   d="$1"; name=$(basename "$d")
   [ -f "/verif/$d/patch.diff" ] || return
